@@ -6,7 +6,7 @@ from engine.driver.encode import Constraint
 ID = "C19"
 HARNESS = "C19_stepcontract.cpp"
 EXPLANATION = "Each integrator's real stepTo() is executed on a free-slider system (every method is exact on it, so error estimates vanish and all decisions are comparisons of times; a spring/pendulum variant with active error control is explored in the thorough tier with large error expressions abstracted) with SYMBOLIC final time, report-time increments, scheduled-event time and step size. Every comparison on a symbolic time or error estimate is a recorded decision; the driver flips decisions (generational search) to reach other paths. On each explored path the solver proves, for all real values of the symbolic times satisfying the path condition: returned time <= min(report, scheduled, final); time non-decreasing; advanced time <= min(scheduled, final); ReachedReportTime => time = report (or = final when the final time precedes the report); ReachedScheduledEvent => time = scheduled; EndOfSimulation => time = final, returned once, and a further stepTo throws."
-BOUNDS = "integrators ExplicitEuler, RK2, RK3, RKF, RKM, Verlet, SemiExplicitEuler, SemiExplicitEuler2 (CPodes thorough); option sets {default, every-step, no-interpolation, fixed step, scheduled event, step limit}; scripts of <= 9 stepTo calls over 4 symbolic report times; path budget 12 (quick) / 150 (thorough) per instance; 1 base point quick / 3 thorough"
+BOUNDS = "integrators ExplicitEuler, RK2, RK3, RKF, RKM, Verlet, SemiExplicitEuler, SemiExplicitEuler2 (CPodes thorough); option sets {default, every-step, no-interpolation, fixed step, scheduled event, step limit}; scripts of <= 9 stepTo calls over 4 symbolic report times; path budget 10 (quick) / 150 (thorough) per instance; 1 base point quick / 3 thorough"
 NOT_COVERED = "event windows (no event triggers in this system: see C22); paths beyond the budget; rounding of t0+h (real semantics); stepBy; CPodes in quick tier"
 ASSUMPTIONS = ["report times non-decreasing and > 0, final time > 0, step size > 0 (input domain used when flipping decisions)"]
 ALLOW_INCONCLUSIVE = False
@@ -25,7 +25,7 @@ def instances(tier, seed):
                 continue
             if tier == "quick" and o in ("sched,every", "nointerp,sched") and ig not in ("RungeKuttaMerson", "ExplicitEuler"):
                 continue
-            out.append(dict(name="%s[%s]" % (ig, o), args=[ig, o], paths=16 if tier == "quick" else 150,
+            out.append(dict(name="%s[%s]" % (ig, o), args=[ig, o], paths=10 if tier == "quick" else 150,
                             base_points=1 if tier == "quick" else 3, flips_per_path=10 if tier == "quick" else 40,
                             abstract_big=True, max_terms=400, pc_filter="linear-first", flip_linear_only=True))
     if tier == "thorough":
